@@ -15,7 +15,7 @@ import random
 import re
 import time
 
-from vlib.chglue import PART_K, PART_N, TIER, THOROUGH, SEED, KNOWN_OFF, in_part, reset_defaults, concrete, known_open
+from vlib.chglue import PART_K, PART_N, TIER, THOROUGH, SEED, KNOWN_OFF, in_part, reset_defaults, concrete, known_open, forked
 from harness.c02 import bsearch
 from harness import tables as T
 from hl7apy.parser import parse_segment, parse_field, parse_component, parse_message
@@ -220,6 +220,20 @@ CATALOGUE = [
     ('segment', '2.5', 'NTE|1||a\\X0D\\b', 'C01-multichar-escape'),
     ('segment', '2.5', 'BHS|^~\\&|SND|FAC', 'C01-batch-header-delimiters'),
     ('segment', '2.5', 'FHS|^~\\&|SND|FAC', 'C01-batch-header-delimiters'),
+    # MSH-12 with components, with the 5-character MSH-2 of 2.7+
+    ('message', '2.7', 'MSH|^~\\&#|A|B|||2020||ADT^A01^ADT_A01|1|P|2.7^ITA\rEVN||2020\rPID|||1||S\rPV1||I', None),
+    ('message', '2.8.1', 'MSH|^~\\&#|A|B|||2020||ADT^A01^ADT_A01|1|P|2.8.1^ITA&Italy&ISO3166^1.0\rEVN||2020\rPID|||1||S\rPV1||I', None),
+    # two messages, one after the other in one process, that declare different escape characters; the second carries the first one's
+    # escape character as data (and the other way round)
+    ('sequence', '2.5', ('MSH|^~\\&|A|B|||2020||ADT^A01^ADT_A01|1|P|2.5\rEVN||2020\rPID|||1||a\\F\\b\rPV1||I',
+                         'MSH|^~@&|A|B|||2020||ADT^A01^ADT_A01|1|P|2.5\rEVN||2020\rPID|||1||C:\\TEMP@F@x\rPV1||I',
+                         'MSH|^~\\&|A|B|||2020||ADT^A01^ADT_A01|1|P|2.5\rEVN||2020\rPID|||1||a@b\\F\\\rPV1||I'), None),
+    ('sequence', '2.5', ('MSH|^~\\&|A|B|||2020||ADT^A01^ADT_A01|1|P|2.5\rEVN||2020\rPID|||1||a\\F\\b\rPV1||I',
+                         'MSH|^~\\&#|A|B|||2020||ADT^A01^ADT_A01|1|P|2.7\rEVN||2020\rPID|||1||a\\L\\b\\F\\\rPV1||I',
+                         'MSH|^~\\&|A|B|||2020||ADT^A01^ADT_A01|1|P|2.6\rEVN||2020\rPID|||1||a\\T\\b\rPV1||I'), None),
+    ('sequence', '2.7', ('MSH|^~\\&#|A|B|||2020||ADT^A01^ADT_A01|1|P|2.7\rEVN||2020\rPID|||1||a\\L\\b\rPV1||I',
+                         'MSH|^~$&|A|B|||2020||ADT^A01^ADT_A01|1|P|2.7\rEVN||2020\rPID|||1||a\\b#c$F$\rPV1||I',
+                         'MSH|^~\\&|A|B|||2020||ADT^A01^ADT_A01|1|P|2.4\rEVN||2020\rPID|||1||a$b\\F\\\rPV1||I'), None),
 ]
 NCAT = len(CATALOGUE)
 
@@ -229,10 +243,17 @@ def cat_check(i, trace=None):
     kind, v, text, finding = CATALOGUE[i]
     if finding and known_open(finding):
         return True
+    if kind == 'sequence':
+        outs = forked(lambda: tuple(parse_message(t, validation_level=2).to_er7() for t in text))    # from a fresh process state
+        if trace is not None:
+            trace.append('messages parsed and encoded one after the other in one process\n  texts %r\n  outs  %r' % (text, outs))
+        return outs == tuple(text)
+    # (every catalogue entry runs in a forked child: the worker itself never encodes anything, so an entry's outcome cannot depend on
+    #  the entries checked before it)
     if kind == 'message':
-        outs = [parse_message(text, validation_level=2, find_groups=fg).to_er7() for fg in (True, False)]
+        outs = forked(lambda: [parse_message(text, validation_level=2, find_groups=fg).to_er7() for fg in (True, False)])
     else:
-        outs = [parse_segment(text, version=v, validation_level=2).to_er7()]
+        outs = forked(lambda: [parse_segment(text, version=v, validation_level=2).to_er7()])
     if trace is not None:
         trace.append('%s %s\n  text %r\n  out  %r' % (kind, v, text, outs))
     return all(o == text for o in outs)
